@@ -443,13 +443,22 @@ func (w *worker) process(jb *job) (replayed, skipped, changing int64, ok bool) {
 		return 0, int64(len(jb.trs)), 0, false
 	}
 	hist := w.hist(chain)
+	alive := true
 	rebuild := func() {
-		inst.Close()
-		var err error
-		inst, err = w.build(jb, chain)
-		if err != nil {
-			panic(err)
+		// rebuild and verify: a construction that does not reproduce the model state (non-deterministic
+		// real code) must not be blamed on the next transition
+		for try := 0; try < 3; try++ {
+			inst.Close()
+			var err error
+			inst, err = w.build(jb, chain)
+			if err != nil {
+				panic(err)
+			}
+			if d := inst.CheckState(&jb.state, nil, nil); len(d) == 0 {
+				return
+			}
 		}
+		alive = false
 	}
 	sampled := false
 	one := func(i int, expState *tla.Value) {
@@ -487,6 +496,9 @@ func (w *worker) process(jb *job) (replayed, skipped, changing int64, ok bool) {
 	}
 	var chg []int
 	for i := range jb.trs {
+		if !alive {
+			break
+		}
 		n := jb.trs[i].F("n")
 		switch {
 		case n.IsStr("skip"):
@@ -498,12 +510,17 @@ func (w *worker) process(jb *job) (replayed, skipped, changing int64, ok bool) {
 		}
 	}
 	for _, i := range chg {
+		if !alive {
+			break
+		}
 		changing++
 		one(i, jb.trs[i].F("n"))
-		rebuild()
+		if alive {
+			rebuild()
+		}
 	}
 	inst.Close()
-	return replayed, skipped, changing, true
+	return replayed, skipped, changing, alive
 }
 
 func trRaw(tr *tla.Value) string {
